@@ -129,3 +129,31 @@ func verifLemmaJoinQLinear(dst, src *linear.QSeq, where int) error {
 func verifLemmaStitchLinear(dst, src *linear.Seq, fs feat.Set) error {
 	return Stitch(dst, src, fs)
 }
+
+// ---- Compose (C06): safety and frame ------------------------------------------------------
+// As for Stitch: proved for all inputs on *linear.Seq - no index outside the source, every segment is copied
+// into fresh storage before it is reversed, the source is untouched when dst != src and shares no storage with
+// the result. The letters of the composition are the bounded stand-in C06.compose.
+//@ func Compose
+//@   property C06
+//@   inline
+//@   loop 1 invariant tl >= 0 && 0 <= idx && idx <= len(ff) && len(t) == len(ff) && fresh(t) && allocated(t) && (forall k int :: 0 <= k && k < len(ff) ==> ff[k] != nil)
+//@   loop 1 invariant typeis(sl, alphabet.Letters) && pLen == len(sl.(alphabet.Letters)) && sl.(alphabet.Letters) == old(src.(*linear.Seq).Seq)
+//@   loop 1 invariant forall k int :: 0 <= k && k < idx ==> typeis(t[k], alphabet.Letters) && fresh(t[k].(alphabet.Letters)) && allocated(t[k].(alphabet.Letters))
+//@   loop 1 writes fresh
+//@   loop 2 invariant 0 <= idx && idx <= len(t) && len(t) == len(ff) && fresh(t) && allocated(t) && (forall k int :: 0 <= k && k < len(ff) ==> ff[k] != nil)
+//@   loop 2 invariant forall k int :: 0 <= k && k < len(t) ==> typeis(t[k], alphabet.Letters) && fresh(t[k].(alphabet.Letters)) && allocated(t[k].(alphabet.Letters))
+//@   loop 2 invariant typeis(c, alphabet.Letters) && fresh(c.(alphabet.Letters)) && allocated(c.(alphabet.Letters))
+//@   loop 2 invariant r == nil || (typeis(r, *linear.Seq) && fresh(ref(r)) && allocated(ref(r)) && -1 <= r.(*linear.Seq).Strand && r.(*linear.Seq).Strand <= 1)
+//@   loop 2 writes fresh
+
+//@ func verifLemmaComposeLinear
+//@   property C06
+//@   lemma
+//@   requires src != nil && dst != nil && fs != nil && src.Alpha != nil && (implements(src.Alpha, alphabet.Complementor) ==> allocated(tabArr(src.Alpha)))
+//@   ensures [linear] result == nil ==> dst.Offset == 0 && dst.Conform == 0
+//@   ensures [independent] dst != src ==> src.Seq == old(src.Seq) && src.Offset == old(src.Offset) && forall k int :: 0 <= k && k < len(src.Seq) ==> src.Seq[k] == old(src.Seq[k])
+//@   ensures [fresh] result == nil ==> fresh(dst.Seq) || len(dst.Seq) == 0
+func verifLemmaComposeLinear(dst, src *linear.Seq, fs feat.Set) error {
+	return Compose(dst, src, fs)
+}
